@@ -134,14 +134,28 @@ def dominated_by_some(i, vals, feas):
     return sx.any_of(conds) if conds else False
 
 
-def make_pareto_body(n, d, backends, with_constraints):
+def make_pareto_body(n, d, backends, with_constraints, mid_reads=False, dmasks=None):
     def body():
         kind = sx.choose(backends, "backend")
-        dmask = sx.choose(1 << d, "direction_mask")
+        dmask = sx.choose(list(range(1 << d)) if dmasks is None else list(dmasks), "direction_mask")
         dirs = ["maximize" if dmask >> j & 1 else "minimize" for j in range(d)]
         study = optuna.create_study(storage=mk_storage(kind), directions=dirs, sampler=optuna.samplers.RandomSampler(seed=0))
         cmode = sx.choose(["none", "all"], "constraints") if with_constraints else "none"
         rows = []
+        handle2 = optuna.load_study(study_name=study.study_name, storage=study._storage, sampler=optuna.samplers.RandomSampler(seed=1))
+
+        def check_front(when):
+            front = sorted(t.number for t in study.best_trials)
+            vals = [r[1] for r in rows]
+            feas = [r[2] <= 0 for r in rows] if cmode == "all" else None
+            conds = []
+            for k, (num, _, c) in enumerate(rows):
+                nd = sx.not_(dominated_by_some(k, vals, feas))
+                member = nd if feas is None else sx.all_of([nd, feas[k]])
+                conds.append(sx.iff(num in front, member))
+            assert all(f in [r[0] for r in rows] for f in front), f"{when}: best_trials contains a non-COMPLETE trial"
+            return front, conds
+        all_conds = []
         for i in range(n):
             st = sx.choose(["complete", "fail"], f"t{i}.state") if i == n - 1 else "complete"
             if st == "fail":
@@ -150,26 +164,23 @@ def make_pareto_body(n, d, backends, with_constraints):
             v = [sx.sym_float(f"v{i}_{j}", ("finite", "inf") if (i == 0 and j == 0) else ("finite",)) for j in range(d)]
             c = sx.sym_real(f"c{i}") if cmode == "all" else None
             sa = {} if c is None else {_CONSTRAINTS_KEY: [c]}
-            if sx.choose(2, f"t{i}.template"):
+            how = sx.choose(["template", "tell", "other-handle"] if mid_reads else ["template", "tell"], f"t{i}.how")
+            if how == "template":
                 study.add_trial(create_trial(values=v, system_attrs=sa))
             else:
-                t = study.ask()
+                h = study if how == "tell" else handle2
+                t = h.ask()
                 if c is not None:
                     study._storage.set_trial_system_attr(t._trial_id, _CONSTRAINTS_KEY, [c])
-                study.tell(t, v)
+                h.tell(t, v)
             rows.append((len(study.get_trials(deepcopy=False)) - 1, [(-x if dmask >> j & 1 else x) for j, x in enumerate(v)], c))
-        front = sorted(t.number for t in study.best_trials)
+            if mid_reads and i < n - 1 and sx.choose(2, f"t{i}.read_front"):
+                sx.reach("mid-history-read")
+                all_conds += check_front(f"after trial {i}")[1]
+        front, conds = check_front("final")
         sx.note("scenario", dict(backend=kind, directions=dirs, constraints=cmode, front=front))
         sx.reach("front-computed")
-        vals = [r[1] for r in rows]
-        feas = [r[2] <= 0 for r in rows] if cmode == "all" else None
-        conds = []
-        for k, (i, _, c) in enumerate(rows):
-            nd = sx.not_(dominated_by_some(k, vals, feas))
-            member = nd if feas is None else sx.all_of([nd, feas[k]])
-            conds.append(sx.iff(i in front, member))
-        assert all(f in [r[0] for r in rows] for f in front), "best_trials contains a non-COMPLETE trial"
-        return sx.all_of(conds)
+        return sx.all_of(all_conds + conds)
     return body
 
 
@@ -202,6 +213,10 @@ def obligations(tier):
                    shard_depth=5, budget_s=900, classify=classify, require_reach=["front-computed"],
                    describe="best_trials == non-dominated (feasible) COMPLETE trials under the O(n^2) definition"),
     ]
+    obs.append(Obligation("pareto-freshness", make_pareto_body(3, 2, ["inmemory", "journal"], False, mid_reads=True, dmasks=[1]), setup, CODE,
+                          bounds=dict(trials=3, objectives=2, reads="after any trial", writers=["add_trial", "tell", "second Study handle"]),
+                          shard_depth=5, budget_s=900, classify=classify, require_reach=["front-computed", "mid-history-read"],
+                          describe="best_trials read repeatedly while trials arrive through add_trial / tell / another Study handle on the same storage"))
     if q:
         obs.append(Obligation("pareto-3d", make_pareto_body(3, 3, ["inmemory"], False), setup, CODE,
                               bounds=dict(trials=3, objectives=3, directions="all 8"), shard_depth=5, budget_s=900, classify=classify,
